@@ -70,11 +70,12 @@ decreasing_by
   simp only [List.length_cons] at this ⊢
   omega
 
-inductive BranchErr | mutated | indexTooHigh | badLength | negative
+inductive BranchErr | mutated | indexTooHigh | badLength | negative | innerTx
   deriving DecidableEq, Repr
 
 def BranchErr.name : BranchErr → String
   | .mutated => "mutated" | .indexTooHigh => "toohigh" | .badLength => "length" | .negative => "negative"
+  | .innerTx => "innertx"
 
 /-- `merkle_root_from_branch` (the loop and the final leftover-bits check) -/
 def rootFromBranch [DecidableEq α] (h : α → α → α) : α → List α → Nat → Except BranchErr α
@@ -83,6 +84,26 @@ def rootFromBranch [DecidableEq α] (h : α → α → α) : α → List α → 
     if i % 2 = 1 then
       if s = r then .error .mutated else rootFromBranch h (h s r) bs (i / 2)
     else rootFromBranch h (h r s) bs (i / 2)
+
+/-- `merkle_root_from_branch` with a `check_inner_node` callback: `bad l r` = "the callback raises on the
+    64 bytes `l ‖ r`" (`merkle_proof._assert_inner_node_is_not_a_tx`, CVE-2017-12842).  The callback runs
+    after the CVE-2012-2459 refusal and before the pair is hashed. -/
+def rootFromBranchChecked [DecidableEq α] (h : α → α → α) (bad : α → α → Bool) : α → List α → Nat → Except BranchErr α
+  | r, [], i => if i ≠ 0 then .error .indexTooHigh else .ok r
+  | r, s :: bs, i =>
+    if i % 2 = 1 then
+      if s = r then .error .mutated
+      else if bad s r then .error .innerTx
+      else rootFromBranchChecked h bad (h s r) bs (i / 2)
+    else if bad r s then .error .innerTx
+    else rootFromBranchChecked h bad (h r s) bs (i / 2)
+
+/-- the (left, right) pairs hashed on the way up -/
+def pathPairs (h : α → α → α) : α → List α → Nat → List (α × α)
+  | _, [], _ => []
+  | r, s :: bs, i =>
+    if i % 2 = 1 then (s, r) :: pathPairs h (h s r) bs (i / 2)
+    else (r, s) :: pathPairs h (h r s) bs (i / 2)
 
 /-! ### the byte-level entry point with its width checks (`bytes_from_octets(·, 32)`) -/
 
@@ -99,5 +120,32 @@ def rootFromBranchBytes (H : Bytes → Bytes) (leaf : Bytes) (br : List Bytes) (
   if index < 0 then .error .negative
   else if leaf.length ≠ 32 then .error .badLength
   else rootFromBranchBytesLoop H leaf br index.toNat
+
+/-- the byte-level loop with the `check_inner_node` callback (`isTx pair` = the callback raises) -/
+def rootFromBranchBytesCheckedLoop (H : Bytes → Bytes) (isTx : Bytes → Bool) :
+    Bytes → List Bytes → Nat → Except BranchErr Bytes
+  | r, [], i => if i ≠ 0 then .error .indexTooHigh else .ok r
+  | r, s :: bs, i =>
+    if s.length ≠ 32 then .error .badLength
+    else if i % 2 = 1 then
+      if s = r then .error .mutated
+      else if isTx (s ++ r) then .error .innerTx
+      else rootFromBranchBytesCheckedLoop H isTx (H (s ++ r)) bs (i / 2)
+    else if isTx (r ++ s) then .error .innerTx
+    else rootFromBranchBytesCheckedLoop H isTx (H (r ++ s)) bs (i / 2)
+
+def rootFromBranchBytesChecked (H : Bytes → Bytes) (isTx : Bytes → Bool) (leaf : Bytes) (br : List Bytes)
+    (index : Int) : Except BranchErr Bytes :=
+  if index < 0 then .error .negative
+  else if leaf.length ≠ 32 then .error .badLength
+  else rootFromBranchBytesCheckedLoop H isTx leaf br index.toNat
+
+/-- `merkle_proof.verify` (display byte order: txid, siblings and root reversed): every refusal is `False` -/
+def proofVerify (H : Bytes → Bytes) (isTx : Bytes → Bool) (txid : Bytes) (br : List Bytes) (index : Int)
+    (root : Bytes) : Bool :=
+  root.length == 32 && txid.length == 32 && br.all (·.length == 32) &&
+    (match rootFromBranchBytesChecked H isTx txid.reverse (br.map List.reverse) index with
+     | .ok r => r.reverse == root
+     | .error _ => false)
 
 end Btc.Merkle
